@@ -190,6 +190,9 @@ def run(rep):
                   f'{label} does not forward module, Some(entry.entry_point), &entry.{listf} and &entry.constants unchanged ({detail})', ok_detail='field-wise forwarding')
     from common import include
     include(rep, 'c07', ('C07.D.buffer-count', 'C07.D.argument-order', 'C07.D.struct-arguments'), 'vertex-buffer-count')
+    # the section reaches the assembled output unconditionally (shared rule, lib/sections.py)
+    from sections import check_wiring
+    check_wiring(rep, 'C14.section-wiring', ['& str =', 'pub mod compute', 'VertexEntry <', 'FragmentEntry <'], 'entry-sections')
 
 
 def subst(term, old, new):
